@@ -371,8 +371,9 @@ func init() {
 		reopenKeepsSnapshotIndex(c, "C05.R7")
 		c05truncationBound(c)
 		c05shadowedError(c)
+		c05applyInOrder(c)
 	}
-	All["C05"].Rules += " R7 R8 R9"
+	All["C05"].Rules += " R7 R8 R9 R10"
 }
 
 // c05shadowedError — C05.R9.  A write is acknowledged when the chain coordinator → store → raft
@@ -528,4 +529,48 @@ func receivedFrom(f *an.Fn, v, ch types.Object) bool {
 		return true
 	})
 	return found
+}
+
+// c05applyInOrder — C05.R10.  Committed raft entries are applied in log order: two acknowledged
+// writes to the same point are ordered by their position in the log, and a replica that applies
+// them in another order keeps the older value.  Every call of the apply step (dealCommitData)
+// is therefore synchronous with the loop over the committed entries — never inside a `go`
+// statement or a function literal started by one.
+func c05applyInOrder(c *an.Ctx) {
+	const E = "engine"
+	r := c.Rule("C05.R10", "K-ORDER", E+": committed entries are applied synchronously, in log order (no call of dealCommitData from a goroutine started per entry)")
+	target := obj(r, E+":dealCommitData")
+	if target == nil {
+		return
+	}
+	n := 0
+	for _, cs := range c.P.CallsTo(target) {
+		if cs.Caller == nil {
+			continue
+		}
+		n++
+		f := c.P.Fn(cs.Caller)
+		if f == nil {
+			continue
+		}
+		async := false
+		for p := f.Parent(cs.Call); p != nil; p = f.Parent(p) {
+			switch x := p.(type) {
+			case *ast.GoStmt:
+				async = true
+			case *ast.FuncLit:
+				// a literal that is the function of a `go` statement
+				if call, ok := f.Parent(x).(*ast.CallExpr); ok && call.Fun == ast.Expr(x) {
+					if _, isGo := f.Parent(call).(*ast.GoStmt); isGo {
+						async = true
+					}
+				}
+			}
+		}
+		if async {
+			r.Fail(cs.Caller.Name()+": apply from a goroutine", c.P.Pos(cs.Call.Pos()), "%s applies a committed entry from a goroutine: entries of one commit are no longer applied in log order, an overwrite can be applied before the value it overwrites", cs.Caller.Name())
+		}
+	}
+	r.AddSites(n)
+	r.Floor(1, "apply call sites")
 }
